@@ -3,6 +3,7 @@
 # Confirms a seeded change independently, in a scratch worktree of /repo HEAD:
 #   (1) with the patch: builds, the repository's own test suite passes, the demonstration FAILS
 #   (2) without the patch: the demonstration PASSES
+# Demonstrations are called with the path of the built gm2calc.x as first and an example input as second argument.
 # Output: one summary line; exit 0 iff all of that holds.  The worktree is removed afterwards.
 set -u
 S=$(realpath "$1")
@@ -15,9 +16,9 @@ build() { cmake -S "$W" -B "$W/_b" -G Ninja -DCMAKE_BUILD_TYPE=Release >/dev/nul
 demo() {
   if [ -f "$S/demo.cpp" ]; then
     g++ -std=c++14 -O1 -I"$W/include" -I"$W/src" -I/usr/include/eigen3 "$S/demo.cpp" "$W/_b/lib/libgm2calc.a" -pthread -lquadmath -o "$D/demo" 2>"$D/demo_build.log" || { echo "demo does not build"; cat "$D/demo_build.log" | head -20; return 99; }
-    (cd "$W" && timeout 600 "$D/demo" >"$D/demo.out" 2>&1); return $?
+    (cd "$W" && timeout 600 "$D/demo" "$W/_b/bin/gm2calc.x" "$W/input/example.thdm" >"$D/demo.out" 2>&1); return $?
   elif [ -f "$S/demo.sh" ]; then
-    (cd "$W" && GM2CALC_BUILD_DIR="$W/_b" GM2CALC="$W/_b/bin/gm2calc.x" REPO="$W" timeout 600 bash "$S/demo.sh" "$W" "$W/_b" >"$D/demo.out" 2>&1); return $?
+    (cd "$W" && GM2CALC_BUILD_DIR="$W/_b" GM2CALC="$W/_b/bin/gm2calc.x" REPO="$W" timeout 600 bash "$S/demo.sh" "$W/_b/bin/gm2calc.x" "$W/input/example.slha" >"$D/demo.out" 2>&1); return $?
   fi
   echo "no demo"; return 98
 }
